@@ -52,7 +52,7 @@ class TokenRoot(KDDataset):
     def getitem_x(self, idx, ctx=None):
         j = self._norm(idx)
         if ctx is not None:
-            ctx["x@root"] = (self.root_id, j)
+            ctx["root_ctx.x"] = (self.root_id, j)
         return ("x", self.root_id, j)
 
     def getitem_aux(self, idx, ctx=None):
@@ -73,6 +73,10 @@ class TokenRoot(KDDataset):
 
     def getshape_embedding(self):
         return (3,)
+
+    def getshape_coarse_class(self):
+        # an item name that contains an underscore itself (and ends in another item's name)
+        return (5 + self.root_id,)
 
     def getitem_class(self, idx, ctx=None):
         return class_of(self.root_id, self.C, self.lay, self._norm(idx), self.n)
@@ -263,6 +267,8 @@ def build(spec, _roots=None):
             given = np.array(idx, dtype=np.int64)
         elif spec.get("as") == "tensor":
             given = torch.tensor(idx, dtype=torch.long)
+        elif spec.get("as") == "tuple":
+            given = tuple(idx)
         else:
             given = idx
         ds = KDSubset(c, given)
@@ -309,7 +315,7 @@ def ref_item(ref, item, k, ctx=None):
         if item == "class":
             return class_of(s["id"], s.get("C", 3), s.get("lay", 0), j, n)
         if item == "x" and ctx is not None:
-            ctx["x@root"] = (s["id"], j)
+            ctx["root_ctx.x"] = (s["id"], j)
         if item == "aux2" and s.get("needs_ctx"):
             return (item, s["id"], j, "ctx")
         return (item, s["id"], j)
@@ -458,7 +464,7 @@ def _stack(draw, d, allow_balanced, allow_shipped, allow_empty):
             idx = draw(st.lists(st.integers(-nb, nb - 1), min_size=min(lo, 1), max_size=10))
             if not idx and not allow_empty:
                 idx = [0]
-        return {"t": "subset", "indices": idx, "as": draw(st.sampled_from(["list", "numpy", "tensor"])), "child": child}
+        return {"t": "subset", "indices": idx, "as": draw(st.sampled_from(["list", "numpy", "tensor", "tuple"])), "child": child}
     sk = draw(st.sampled_from(SHIPPED_SUBSETS))
     args = {}
     if sk == "ShuffleWrapper":
